@@ -266,6 +266,24 @@ pub fn write_ink_list(list: &InkList) -> serde_json::Value {
 
     jobj.insert("list".to_owned(), serde_json::Value::Object(jlist));
 
+    // An empty list still knows which list definitions it came from; write them,
+    // as the reference implementation does, so that LIST_ALL / LIST_INVERT of an
+    // emptied list keep working after a save/load round trip.
+    if list.items.is_empty() {
+        let mut names = list.get_origin_names();
+        if names.is_empty() {
+            names = list
+                .origins
+                .borrow()
+                .iter()
+                .map(|d| d.get_name().to_string())
+                .collect();
+        }
+        if !names.is_empty() {
+            jobj.insert("origins".to_owned(), json!(names));
+        }
+    }
+
     serde_json::Value::Object(jobj)
 }
 
